@@ -274,7 +274,9 @@ pub fn run(ctx: &Ctx) -> Report {
             (k, (blk * block..((blk + 1) * block).min(201)).collect(), delays)
         } else {
             let k = rng.usize(1, kmax);
-            (k, vec![rng.usize(201, 3000), if ctx.quick() { rng.usize(3000, 40_000) } else { rng.usize(3000, 200_000) }, k * rng.usize(1, 50), k * rng.usize(1, 50) + rng.usize(1, k)], rng.bool())
+            // (plus a length at a power-of-two block boundary per worker, B*k*j + {-1,0,1}, B in {4096, 65536}: blocked inner loops)
+            let blk = *rng.pick(&[4096usize, 65536]) * k * rng.usize(1, 2);
+            (k, vec![rng.usize(201, 3000), if ctx.quick() { rng.usize(3000, 40_000) } else { rng.usize(3000, 200_000) }, k * rng.usize(1, 50), k * rng.usize(1, 50) + rng.usize(1, k), blk + rng.usize(0, 2) - 1], rng.bool())
         };
         // a rotating window of k CPUs (spreads the monitor threads over the machine)
         let off = (u as usize * 5) % cpus.len();
